@@ -150,7 +150,16 @@ def execute(pid, tier, seed, cases, assumptions, extra_cov=None, budget_s=None, 
         if c.witness:
             qw = c.query(['WITNESS'] + exdefs, suffix='+witness', expect='fails-witness', witness_of=c.name + ('+excl' if exdefs else ''), timeout=c.witness_timeout)
             queries.append(qw); qcase[qw.name] = (c, 'witness')
-    log('%s/%s: %d cases -> %d CBMC queries on %d workers' % (pid, tier, len(cases), len(queries), jobs or NCPU))
+    if tier == 'thorough' and budget_s is None:
+        # hard admission budget of the thorough tier: queries not started within it are reported as skipped (not explored,
+        # no verdict claimed); the admission order is a seeded shuffle of the cases, so that what IS explored is spread
+        # over all fixtures and entries (witness/cover/+excl twins stay next to their case)
+        budget_s = int(os.environ.get('VERIF_THOROUGH_BUDGET_S', '5400'))
+        import random
+        order = sorted({qcase[q.name][0].name for q in queries}); random.Random(seed).shuffle(order)
+        rank = {n: i for i, n in enumerate(order)}
+        queries.sort(key=lambda q: rank[qcase[q.name][0].name])
+    log('%s/%s: %d cases -> %d CBMC queries on %d workers%s' % (pid, tier, len(cases), len(queries), jobs or NCPU, (' (admission budget %d s)' % budget_s) if budget_s else ''))
     results = run_queries(queries, logdir, jobs=jobs, budget_s=budget_s)
     # ---- re-derive the counterexamples of failing queries WITHOUT --slice-formula, in parallel (the sliced trace omits
     # assignments outside the failing assertion's cone of influence, so the nondet stream would be incomplete)
@@ -167,17 +176,19 @@ def execute(pid, tier, seed, cases, assumptions, extra_cov=None, budget_s=None, 
             retrace[nm] = r2
     # ---- triage
     byname = {r['name']: r for r in results}
-    undecided = []
+    undecided = []; skipped = []
     for r in results:
         c, kind = qcase[r['name']]
         st = r.get('status')
         if kind == 'cover':
             if st == 'uncovered':
                 broken.append('coverage goal(s) of %s unreachable (the harness does not exercise what it claims): %s' % (c.name, ['line %s: %s' % (l, d) for l, d, g in r.get('cover', []) if g != 'SATISFIED'][:3]))
+            elif st == 'skipped': skipped.append(r['name'])
             elif st != 'covered': undecided.append(r['name'])
             continue
         if kind == 'witness':
             if st == 'holds': broken.append('vacuous harness: witness of %s is unreachable' % c.name)
+            elif st == 'skipped': skipped.append(r['name'])
             elif st != 'fails': undecided.append(r['name'])
             elif r.get('failed') and not any('witness' in d for _, d in r['failed']):
                 broken.append('witness of %s failed on something other than the end-of-harness assertion: %s' % (c.name, [d for _, d in r['failed']][:2]))
@@ -186,6 +197,8 @@ def execute(pid, tier, seed, cases, assumptions, extra_cov=None, budget_s=None, 
                 pass
             continue
         if st == 'holds': continue
+        if st == 'skipped':
+            skipped.append(r['name']); continue
         if st != 'fails':
             undecided.append(r['name']); continue
         descs = [d for _, d in r.get('failed', [])]
@@ -226,11 +239,12 @@ def execute(pid, tier, seed, cases, assumptions, extra_cov=None, budget_s=None, 
         log('VIOLATION property=%s replay=%s   # case %s: %s' % (pid, path, cn, '; '.join(descs[:3])))
     for b in broken: log('BROKEN: ' + b)
     main_q = [r for r in results if qcase[r['name']][1] not in ('witness', 'cover')]
-    if undecided: log('NO-VERDICT (timeout/memory/skipped, not counted as success): ' + ', '.join(undecided[:20]))
+    if undecided: log('NO-VERDICT (timeout/memory, not counted as success): ' + ', '.join(undecided[:20]))
+    if skipped: log('NOT-EXPLORED (admission budget of the tier exhausted): %d queries, e.g. %s' % (len(skipped), ', '.join(skipped[:6])))
     extra = dict(extra_cov or {})
     extra.update(translation_validation=dict(harness_builds=len(tvs), paired_runs=sum(t['runs'] for t in tvs), feasible_runs=sum(t['feasible'] for t in tvs),
                                              mismatches=sum(len(t['diffs']) for t in tvs)),
-                 known_findings_reported=sorted(set(known_lines)), undecided=undecided, broken=broken,
+                 known_findings_reported=sorted(set(known_lines)), undecided=undecided, not_explored=len(skipped), admission_budget_s=budget_s, broken=broken,
                  functions_encoded=sorted({f for c in cases for f in c.fixture.get('functions', [])})[:400],
                  fixtures=sorted({c.fixture['name'] for c in cases}))
     write_evidence(pid, tier, seed, results, time.time() - t0, len(violations), assumptions, extra, level)
@@ -240,7 +254,7 @@ def execute(pid, tier, seed, cases, assumptions, extra_cov=None, budget_s=None, 
     if broken: return 2
     # no clause may be left without a decided query
     if main_q and not any(r.get('status') in ('holds', 'fails') for r in main_q): return 2
-    if len(undecided) > len(main_q) // 2: return 2
+    if len(undecided) > (len(main_q) - len([n for n in skipped if not n.endswith('+witness') and not n.endswith('+cover')])) // 2: return 2
     return 0
 
 def generic_replay(path, mod=None):
